@@ -6,6 +6,7 @@ import ast
 import token as pytoken
 
 from vlib.core import AnalysisError, Report
+from vlib.guards import always_exits
 from vlib.srcindex import SourceIndex, attr_chain, const_str, unparse, walk_no_nested
 
 EXPLANATION = (
@@ -118,6 +119,69 @@ def grammar_definition(idx: SourceIndex, base: Defn) -> Defn:
 	return d
 
 
+def rule_bracket_layout(rep: Report, tz) -> None:
+	"""layout inside brackets is insignificant: while context.enclosure > 0 the white-space handler must neither emit tokens nor touch the
+	indentation state (Context.nest, the indent unit fixed by Context.to_nest)"""
+	r = rep.rule('C13/bracket-layout-insignificant', 'in Tokenizer.handle_white_space every write of the indentation state (context.nest, Context.to_nest which fixes the indent unit) and every emitted token is dominated by the `context.enclosure > 0 -> return nothing` guard', floor=4)
+	f = tz.func('Tokenizer.handle_white_space')
+	ctx = tz.cls('Tokenizer.Context')
+	mutating = set()
+	for name, defs in ctx.methods.items():
+		if name == '__init__':
+			continue
+		for n in ast.walk(defs[-1].node):
+			if isinstance(n, (ast.Assign, ast.AugAssign)):
+				for t in (n.targets if isinstance(n, ast.Assign) else [n.target]):
+					if isinstance(t, ast.Attribute) and isinstance(t.value, ast.Name) and t.value.id == 'self':
+						mutating.add(name)
+	if 'to_nest' not in mutating:
+		r.note(f'Context methods that write state: {sorted(mutating)}')
+
+	def is_in_brackets(e: ast.AST) -> bool:
+		return isinstance(e, ast.Compare) and unparse(e.left) == 'context.enclosure' and len(e.ops) == 1 and isinstance(e.ops[0], (ast.Gt, ast.NotEq)) and unparse(e.comparators[0]) == '0'
+
+	found = []
+
+	def effects_in(stmt: ast.stmt) -> list[ast.AST]:
+		out = []
+		for n in ast.walk(stmt):
+			if isinstance(n, (ast.Assign, ast.AugAssign)):
+				for t in (n.targets if isinstance(n, ast.Assign) else [n.target]):
+					if isinstance(t, ast.Attribute) and isinstance(t.value, ast.Name) and t.value.id == 'context':
+						out.append(n)
+			if isinstance(n, ast.Call) and isinstance(n.func, ast.Attribute) and isinstance(n.func.value, ast.Name) and n.func.value.id == 'context' and n.func.attr in mutating:
+				out.append(n)
+			if isinstance(n, ast.Return) and isinstance(n.value, ast.Tuple) and len(n.value.elts) == 2 and not (isinstance(n.value.elts[1], ast.List) and not n.value.elts[1].elts):
+				out.append(n)  # emits tokens
+		return out
+
+	def walk(stmts: list[ast.stmt], outside: bool) -> bool:
+		"""outside = known to be outside brackets; returns the state after the block"""
+		for s in stmts:
+			if isinstance(s, ast.If):
+				if is_in_brackets(s.test):
+					for e in effects_in(ast.Module(body=s.body, type_ignores=[])):
+						found.append((e, False, 'inside the in-brackets branch'))
+					walk(s.orelse, True)
+					if always_exits(s.body):
+						outside = True
+					continue
+				# test expression itself
+				walk(s.body, outside)
+				walk(s.orelse, outside)
+				continue
+			for e in effects_in(s):
+				found.append((e, outside, ''))
+		return outside
+
+	walk(f.node.body, False)
+	if len(found) < 4:
+		raise AnalysisError(f'C13: only {len(found)} indentation-state effects found in handle_white_space')
+	for e, ok, why in found:
+		key = f'handle_white_space:{unparse(e)[:70]}'
+		r.check(ok, key, (TOKENIZER_PY, e.lineno), f'`{unparse(e)[:90]}` can execute while context.enclosure > 0 {why}: a line break inside brackets would then change the indentation state or emit layout tokens (layout inside brackets must be insignificant)', unparse(e)[:100])
+
+
 def run(rep: Report, tier: str) -> None:
 	idx = SourceIndex()
 	tk, tz = idx.mod(TOKEN_PY), idx.mod(TOKENIZER_PY)
@@ -206,6 +270,8 @@ def run(rep: Report, tier: str) -> None:
 	ct = idx.mod(SYNTAX_PY).func('SyntaxParser._compare_token')
 	reads = {n.attr for n in ast.walk(ct.node) if isinstance(n, ast.Attribute) and isinstance(n.value, ast.Name) and n.value.id == 'token'}
 	ru.check(reads <= {'string'}, 'parser-matches-by-string', ct.where, f'SyntaxParser._compare_token reads token.{sorted(reads)}; the grammar tokenizer shifts symbol offsets after "/", which is harmless only while terminals are matched by string')
+
+	rule_bracket_layout(rep, tz)
 
 	# domain order
 	ro = rep.rule('C13/domain-order', 'no comment/quote opener starts with a character consumed by an earlier character-set domain; inside one opener list no earlier opener is a proper prefix of a later one', floor=10)
